@@ -53,6 +53,7 @@ void (*sched_on_wait_return)(int tid, struct env_wait *w, int n);
 long sched_max_points;
 int sched_signal_atomic = 1;
 int sched_signal_defer;
+static int handlers_nonatomic;         /* signal handlers in progress that are not atomic steps */
 int sched_fault_eintr;
 int sched_no_more_choices;
 long sched_points;
@@ -287,11 +288,17 @@ static void deliver_signals(int me)
 			break;
 		memmove(&T[me].sigq[0], &T[me].sigq[1], (T[me].nsig - 1) * sizeof(int));
 		T[me].nsig--;
-		/* the handler runs synchronously here, as one atomic step */
-		atomic_depth += sched_signal_atomic;
-		if (!sched_on_signal || sched_on_signal(me, sig))
-			sched_raise(sig);
-		atomic_depth -= sched_signal_atomic;
+		/* the handler runs synchronously here, as one atomic step - unless another thread is in the middle of a
+		 * handler that is not atomic (it may hold a library lock): then this one cannot be an atomic step either */
+		{
+			int at = sched_signal_atomic && !handlers_nonatomic;
+			atomic_depth += at;
+			handlers_nonatomic += !at;
+			if (!sched_on_signal || sched_on_signal(me, sig))
+				sched_raise(sig);
+			handlers_nonatomic -= !at;
+			atomic_depth -= at;
+		}
 	}
 }
 
